@@ -1001,7 +1001,7 @@ func (g *gen) overrideInit(t *Type, depth int) Expr {
 		ops = []string{"+", "*", "/", "%", "&", "|", "^", "<<", ">>"}
 	}
 	op := ops[g.intn(len(ops), "oviop")]
-	if g.f.off("override.init.op."+op) {
+	if g.f.off("override.init.op."+op) || (op == "/" && g.f.off("override.init.int-div")) {
 		op = "+"
 	}
 	g.class("override-init:int" + op)
